@@ -538,7 +538,8 @@ func init() {
 	register(&vf.Check{
 		ID:        "C03",
 		Technique: "runtime monitor: shadow ledger (deferred operations + armed timers + posted handlers) compared with IO.Pending() after every top-level step; handler counter and poll(2) oracle against PollOne's return value; bounded-progress probes for RunPending; signals delivered to the loop's thread (tgkill) during RunOneFor/RunOne",
-		Rule: "cases = (80%) scripts of 10-50 steps over 2-5 objects (TCP conns, adapters, FIFOs, packet conns, connected UDP conns, listeners) with start/cancel/close/timer arm-cancel-close/Post/peer actions/PollOne and failed registrations (regular file at the dispatch limit -> EPERM, descriptor closed underneath -> EBADF, also with read and write both registered before the descriptor goes away and the object is closed), Pending() compared after every step; (17%) RunPending probes with 0-5 self-completing deferred operations, 0-2 short timers, 0-2 posts and optionally a failed registration; (3%) signal cases (SIGUSR1 to the loop thread during RunOneFor(200ms)/RunOne()); " +
+		Rule: "plus two probes: k expired timers ready in one cycle for k in {1,100,127,128,129,200,255,256,257,300} (PollOne's result and Pending() after every call), and bursts of 1000-9000 posted handlers that each post a follow-up (Pending() after every cycle, RunPending returns); " +
+			"cases = (80%) scripts of 10-50 steps over 2-5 objects (TCP conns, adapters, FIFOs, packet conns, connected UDP conns, listeners) with start/cancel/close/timer arm-cancel-close/Post/peer actions/PollOne and failed registrations (regular file at the dispatch limit -> EPERM, descriptor closed underneath -> EBADF, also with read and write both registered before the descriptor goes away and the object is closed), Pending() compared after every step; (17%) RunPending probes with 0-5 self-completing deferred operations, 0-2 short timers, 0-2 posts and optionally a failed registration; (3%) signal cases (SIGUSR1 to the loop thread during RunOneFor(200ms)/RunOne()); " +
 			"non-trivial = script with >= 1 cancel/close/failed-registration/timer step, every RunPending probe, signal cases with an observed early return; distinct = step-kind counts",
 		Assumptions: []string{
 			"Pending() is compared only when no handler is on the stack",
